@@ -344,11 +344,12 @@ func concHistory(args []string) error {
 		status, got := "ok", ""
 		for round := 0; round < 60 && status == "ok"; round++ {
 			lexVia(def, &flakyReader{data: "<b>partial"})
-			if got = lexVia(def, strings.NewReader(useInput["A"])); got != want {
-				status = "MISMATCH"
-			}
-			if got = lexVia(plainDef(), strings.NewReader(useInput["A"])); got != want { // the leftover may be global
-				status = "MISMATCH"
+			if g1 := lexVia(def, strings.NewReader(useInput["A"])); g1 != want {
+				status, got = "MISMATCH", g1
+			} else if g2 := lexVia(plainDef(), strings.NewReader(useInput["A"])); g2 != want { // the leftover may be global
+				status, got = "MISMATCH", g2
+			} else {
+				got = g1
 			}
 		}
 		observe2("definition.Lex(reader) A", "Lex on a reader that fails half-way", want, got)
